@@ -1,13 +1,13 @@
 ------------------------------ MODULE Isolation ------------------------------
 (***************************************************************************)
 (* IsolationObs (C15) on one recorded scenario.                            *)
-(* conns[c] = [msgs, fault (kind "none"|"panic"|"bad"|"eof"|"eofmid", pos),*)
+(* conns[c] = [msgs, fault (kind none|panic|bad|badbody|eof|eofmid, pos),  *)
 (*             answered (hop-by-hop ids answered, in order), closed]       *)
 (* plus reports (error reports offered), accepted, serve_returned, died.   *)
 (***************************************************************************)
 EXTENDS Integers, Sequences, FiniteSets, TLC
 Upto(n) == [i \in 1..n |-> i]
-CountBad(cs) == Cardinality({c \in 1..Len(cs) : cs[c].fault.kind = "bad"})
+CountBad(cs) == Cardinality({c \in 1..Len(cs) : cs[c].fault.kind \in {"bad", "badbody"}})
 Reasons(e) ==
   IF e.died THEN <<"process-died">> ELSE
      (IF e.accepted # Len(e.conns) THEN <<"connection-not-accepted">> ELSE <<>>)
@@ -16,5 +16,6 @@ Reasons(e) ==
   \o (IF \E c \in 1..Len(e.conns) : e.conns[c].fault.kind = "none" /\ e.conns[c].closed THEN <<"healthy-closed">> ELSE <<>>)
   \o (IF \E c \in 1..Len(e.conns) : e.conns[c].fault.kind # "none" /\ ~e.conns[c].closed THEN <<"faulty-not-closed">> ELSE <<>>)
   \o (IF \E c \in 1..Len(e.conns) : e.conns[c].fault.kind # "none" /\ e.conns[c].answered # Upto(e.conns[c].fault.pos - 1) THEN <<"before-fault-not-served">> ELSE <<>>)
+  \o (IF \E c \in 1..Len(e.conns) : ~e.conns[c].intact THEN <<"answer-carries-another-connections-data">> ELSE <<>>)
   \o (IF e.reports < CountBad(e.conns) THEN <<"undecodable-not-reported">> ELSE <<>>)
 =============================================================================
